@@ -1,11 +1,5 @@
-import Harper.Driver.Overlaps
-open Harper Harper.Driver Harper.Proto
-
-def handle (line : String) : String :=
-  match splitWs line.trimAscii.toString with
-  | "ro" :: args => handleRo args
-  | "ri" :: args => handleRi args
-  | _ => "bad-op"
+import Harper.Driver.All
+open Harper.Driver
 
 partial def loop (h : IO.FS.Stream) (out : IO.FS.Stream) : IO Unit := do
   let line ← h.getLine
